@@ -35,12 +35,12 @@ type c02ShadowName struct {
 
 var c02ShadowNames = []c02ShadowName{
 	{"input", ""}, {"query", ""}, {"headers", ""}, {"ws", ""}, {"auth", ""}, // request variables (auth: only bound on routes with auth middleware; here a fresh name)
-	{"id", ""},      // path parameter
-	{"page", ""},    // declared query parameter
-	{"x", ""},       // route variable
-	{"seen", ""},    // route variable that the construct itself updates
-	{"length", ""},  // built-in function
-	{"zz", ""},      // not visible: the control
+	{"id", ""},     // path parameter
+	{"page", ""},   // declared query parameter
+	{"x", ""},      // route variable
+	{"seen", ""},   // route variable that the construct itself updates
+	{"length", ""}, // built-in function
+	{"zz", ""},     // not visible: the control
 	{"LIMIT", "const LIMIT = 10\n"},
 	{"dbl", "! dbl(n: int): int {\n  > n * 2\n}\n"},
 }
